@@ -1,6 +1,6 @@
 // Trusted model of the part of reqwest / std::fs that acmed/src/http.rs uses.
 // Effects are stated over the ghost World; "X never happens unless Y" is a precondition of the effect.
-pub mod vfs {
+pub mod rootfs {
     use vstd::prelude::*;
     use crate::acme_common::error::IoError;
     verus! {
@@ -132,7 +132,7 @@ pub mod reqwest {
                 self.is_post@ ==> (old(w).net.built matches Some(b) && b.1 == self.url@ && b.2 == self.body@), //@C04.body_bound_to_url
                 self.is_post@ ==> (old(w).net.latest_nonce matches Some(n) ==> old(w).net.built matches Some(b) && b.0 == n), //@C04.newest_nonce
             ensures
-                final(w).clock >= old(w).clock, final(w).admissions == old(w).admissions,
+                final(w).clock >= old(w).clock, final(w).admissions == old(w).admissions, final(w).fs == old(w).fs,
                 final(w).net.permit == false,
                 final(w).net.sends == old(w).net.sends + 1,
                 final(w).net.posts == old(w).net.posts + (if self.is_post@ { 1nat } else { 0nat }),
